@@ -832,3 +832,384 @@ Qed.
 
 End CopyRows.
 
+
+(* ---------------------------------------------------------------------------------------- *)
+(* Range::range (window)                                                                    *)
+(* ---------------------------------------------------------------------------------------- *)
+Section Window.
+Variable T : Type.
+Variable d : T.
+
+Lemma cell_or_empty : forall (r : range T) q, is_empty r = true -> cell_or d r q = d.
+Proof. intros r q H. unfold cell_or. rewrite get_value_empty by assumption. reflexivity. Qed.
+
+Lemma cell_or_mk : forall sr sc er ec (l : list T) q, sr <= er -> sc <= ec ->
+  N.of_nat (length l) = (er - sr + 1) * (ec - sc + 1) ->
+  Some (cell_or d (mkRange (sr, sc) (er, ec) l) q) =
+    if in_box (sr, sc) (er, ec) q
+    then nth_error l (N.to_nat (fst q - sr) * N.to_nat (ec - sc + 1) + N.to_nat (snd q - sc))%nat
+    else Some d.
+Proof.
+  intros sr sc er ec l q H1 H2 Hl. unfold cell_or.
+  rewrite (@get_value_mk T sr sc er ec l q H1 H2 Hl).
+  destruct (in_box (sr, sc) (er, ec) q) eqn:Eb; [|reflexivity].
+  destruct (nth_error l _) as [x|] eqn:En; [reflexivity|].
+  apply nth_error_None in En. pose proof (@box_index_lt sr sc er ec q _ Eb Hl). lia.
+Qed.
+
+Lemma window_spec_sec : forall (r : range T) (s e : pos),
+    Wf r -> le2 s e -> box_cells s e <= U32MAX ->
+    exists w, window d r s e = Ok w /\ Wf w /\ rect w = Some (s, e) /\
+      forall q, get_value w q = if in_box s e q then Some (cell_or d r q) else None.
+Proof.
+  intros r s e HWf Hle Hb.
+  destruct (new_spec d Hle Hb) as (other & Hnew & HWfo & Hrecto & Hgeto).
+  rewrite (new_ok d Hle Hb) in Hnew. injection Hnew as Hother.
+  unfold window. rewrite (new_ok d Hle Hb). cbn [obind]. rewrite Hother.
+  destruct r as [[ssr ssc] [ser sec] l], s as [osr osc], e as [oer oec]. cbn [r_start r_end].
+  destruct (is_empty (mkRange (ssr, ssc) (ser, sec) l)) eqn:Hemp.
+  { (* empty source *)
+    exists other. split; [reflexivity|]. split; [assumption|]. split; [assumption|].
+    intro q. rewrite Hgeto, cell_or_empty by assumption. reflexivity. }
+  destruct (Wf_ne HWf Hemp) as (H1 & H2 & Hh & Hw & Hl).
+  cbn [r_start r_end r_inner fst snd] in H1, H2, Hh, Hw, Hl. rewrite Hh, Hw in Hl.
+  cbv zeta.
+  destruct ((N.min ser oer <? N.max ssr osr) || (N.min sec oec <? N.max ssc osc)) eqn:Eov.
+  { (* no overlap *)
+    exists other. split; [reflexivity|]. split; [assumption|]. split; [assumption|].
+    intro q. rewrite Hgeto. destruct (in_box (osr, osc) (oer, oec) q) eqn:Eb; [|reflexivity].
+    rewrite (@cell_or_mk ssr ssc ser sec l q H1 H2 Hl).
+    destruct (in_box (ssr, ssc) (ser, sec) q) eqn:Eb'; [|reflexivity].
+    unfold in_box in Eb, Eb'. cbn [fst snd] in Eb, Eb'. lia. }
+  (* overlap *)
+  destruct Hle as [Hle1 Hle2]. unfold box_cells in Hb. cbn [fst snd] in Hle1, Hle2, Hb.
+  assert (Hlo : length (r_inner other) = (N.to_nat (oer - osr + 1) * N.to_nat (oec - osc + 1))%nat).
+  { rewrite <- Hother. cbn [r_inner]. unfold box_cells. cbn [fst snd].
+    rewrite repeat_length. apply N2Nat.inj_mul. }
+  assert (Hwo : width other = oec - osc + 1).
+  { rewrite <- Hother. unfold width. rewrite ne_mk; [reflexivity|].
+    unfold box_cells. cbn [fst snd]. rewrite repeat_length. clear. lia. }
+  assert (Hd : forall n, (n < N.to_nat (oer - osr + 1) * N.to_nat (oec - osc + 1))%nat ->
+                 nth_error (r_inner other) n = Some d).
+  { intros n Hn. rewrite <- Hother. cbn [r_inner]. apply nth_error_repeat.
+    unfold box_cells. cbn [fst snd]. rewrite N2Nat.inj_mul. exact Hn. }
+  assert (Hl' : length l = (N.to_nat (ser - ssr + 1) * N.to_nat (sec - ssc + 1))%nat)
+    by (rewrite <- N2Nat.inj_mul, <- Hl, Nat2N.id; reflexivity).
+  rewrite Hw, Hwo.
+  destruct (sec - ssc + 1 =? 0) eqn:Ez1; [clear - Ez1; lia|].
+  destruct (oec - osc + 1 =? 0) eqn:Ez2; [clear - Ez2; lia|].
+  unfold firstn_skipn_rows. cbn [r_inner].
+  (* abstract the corners of the overlap: only their order properties matter *)
+  assert (Hov : (ssr <= N.max ssr osr /\ osr <= N.max ssr osr /\
+                 N.min ser oer <= ser /\ N.min ser oer <= oer /\ N.max ssr osr <= N.min ser oer) /\
+                (ssc <= N.max ssc osc /\ osc <= N.max ssc osc /\
+                 N.min sec oec <= sec /\ N.min sec oec <= oec /\ N.max ssc osc <= N.min sec oec))
+    by (clear - Eov; lia).
+  assert (Hlub : forall qr qc : N,
+            (ssr <= qr -> osr <= qr -> N.max ssr osr <= qr) /\
+            (qr <= ser -> qr <= oer -> qr <= N.min ser oer) /\
+            (ssc <= qc -> osc <= qc -> N.max ssc osc <= qc) /\
+            (qc <= sec -> qc <= oec -> qc <= N.min sec oec))
+    by (clear; intros; lia).
+  clear Eov HWf Hemp Hh Hw Hgeto HWfo Hrecto Hwo Ez1 Ez2 Hb Hother.
+  revert Hov Hlub.
+  generalize (N.max ssr osr) (N.min ser oer) (N.max ssc osc) (N.min sec oec).
+  intros r0 r1 c0 c1 Hov Hlub.
+  destruct (@window_nat T d l (r_inner other)
+              (N.to_nat (ser - ssr + 1)) (N.to_nat (sec - ssc + 1))
+              (N.to_nat (oer - osr + 1)) (N.to_nat (oec - osc + 1))
+              (N.to_nat (r0 - ssr)) (N.to_nat (r1 + 1 - ssr))
+              (N.to_nat (c0 - ssc)) (N.to_nat (c1 + 1 - ssc))
+              (N.to_nat (r0 - osr)) (N.to_nat (r1 + 1 - osr))
+              (N.to_nat (c0 - osc)) (N.to_nat (c1 + 1 - osc)))
+    as (mid & Hmid & Hlen & Hnth); try assumption;
+    try (clear - H1 H2 Hle1 Hle2 Hov; lia).
+  rewrite Hmid. cbn [obind]. eexists; split; [reflexivity|].
+  match goal with |- Wf (mkRange _ _ ?out) /\ _ => set (outl := out) in * end.
+  assert (Hlout : N.of_nat (length outl) = (oer - osr + 1) * (oec - osc + 1))
+    by (rewrite Hlen, Nat2N.inj_mul, !N2Nat.id; reflexivity).
+  clearbody outl. clear Hmid Hlen Hlo Hd Hl'.
+  split; [apply Wf_mk; assumption|]. split; [apply rect_mk; assumption|].
+  intro q. rewrite (@get_value_mk T osr osc oer oec outl q Hle1 Hle2 Hlout).
+  destruct (in_box (osr, osc) (oer, oec) q) eqn:Eb; [|reflexivity].
+  destruct q as [qr qc]. cbn [fst snd].
+  assert (Hq : osr <= qr /\ qr <= oer /\ osc <= qc /\ qc <= oec)
+    by (clear - Eb; unfold in_box in Eb; cbn [fst snd] in Eb; lia).
+  rewrite Hnth by (clear - Hq; lia).
+  rewrite (@cell_or_mk ssr ssc ser sec l (qr, qc) H1 H2 Hl). cbn [fst snd].
+  specialize (Hlub qr qc).
+  destruct (in_box (ssr, ssc) (ser, sec) (qr, qc)) eqn:Eb'; unfold in_box in Eb'; cbn [fst snd] in Eb';
+    clear - Hq Eb' Hlub Hov.
+  - destruct (Nat.leb_spec (N.to_nat (r0 - osr)) (N.to_nat (qr - osr))); [|lia].
+    destruct (Nat.ltb_spec (N.to_nat (qr - osr)) (N.to_nat (r1 + 1 - osr))); [|lia].
+    destruct (Nat.leb_spec (N.to_nat (c0 - osc)) (N.to_nat (qc - osc))); [|lia].
+    destruct (Nat.ltb_spec (N.to_nat (qc - osc)) (N.to_nat (c1 + 1 - osc))); [|lia].
+    cbn [andb].
+    match goal with
+    | |- nth_error l (?a * ?w + ?b)%nat = nth_error l (?a' * ?w + ?b')%nat =>
+        replace a with a' by lia; replace b with b' by lia; reflexivity
+    end.
+  - destruct (Nat.leb_spec (N.to_nat (r0 - osr)) (N.to_nat (qr - osr)));
+    destruct (Nat.ltb_spec (N.to_nat (qr - osr)) (N.to_nat (r1 + 1 - osr)));
+    destruct (Nat.leb_spec (N.to_nat (c0 - osc)) (N.to_nat (qc - osc)));
+    destruct (Nat.ltb_spec (N.to_nat (qc - osc)) (N.to_nat (c1 + 1 - osc)));
+    cbn [andb]; try reflexivity. lia.
+Qed.
+
+End Window.
+
+Lemma window_spec :
+  forall (T : Type) (d : T) (r : range T) (s e : pos),
+    Wf r -> le2 s e -> box_cells s e <= U32MAX ->
+    exists w, window d r s e = Ok w /\ Wf w /\ rect w = Some (s, e) /\
+      forall q, get_value w q = if in_box s e q then Some (cell_or d r q) else None.
+Proof. intros T d. apply window_spec_sec. Qed.
+
+(* ---------------------------------------------------------------------------------------- *)
+(* Range::from_sparse                                                                       *)
+(* ---------------------------------------------------------------------------------------- *)
+Section FromSparse.
+Variable T : Type.
+Variable d : T.
+
+Notation row c := (fst (fst c)).
+Notation col c := (snd (fst c)).
+Notation minstep := (fun (m : N) (c : pos * T) => if snd (fst c) <? m then snd (fst c) else m).
+Notation maxstep := (fun (m : N) (c : pos * T) => if m <? snd (fst c) then snd (fst c) else m).
+
+Lemma fold_bbox : forall (l : list (pos * T)) r0 c0 r1 c1,
+  fold_left (fun b p => bbox (Some b) p) (map fst l) ((r0, c0), (r1, c1)) =
+    ((fold_left (fun m c => N.min m (row c)) l r0, fold_left minstep l c0),
+     (fold_left (fun m c => N.max m (row c)) l r1, fold_left maxstep l c1)).
+Proof.
+  induction l as [|c l IH]; intros r0 c0 r1 c1; [reflexivity|].
+  cbn [map fold_left]. unfold bbox at 2. cbn [fst snd]. rewrite IH.
+  replace (N.min c0 (col c)) with (if col c <? c0 then col c else c0)
+    by (destruct (col c <? c0) eqn:E; lia).
+  replace (N.max c1 (col c)) with (if c1 <? col c then col c else c1)
+    by (destruct (c1 <? col c) eqn:E; lia).
+  reflexivity.
+Qed.
+
+Lemma fold_min_bounds : forall (l : list (pos * T)) m,
+  fold_left minstep l m <= m /\ forall c, In c l -> fold_left minstep l m <= col c.
+Proof.
+  induction l as [|x l IH]; intros m; cbn [fold_left].
+  - split; [lia|]. intros c [].
+  - destruct (IH (if col x <? m then col x else m)) as [Ha Hb].
+    destruct (col x <? m) eqn:E; (split; [lia|]); intros c [<-|Hc]; try lia; apply Hb; assumption.
+Qed.
+
+Lemma fold_max_bounds : forall (l : list (pos * T)) m,
+  m <= fold_left maxstep l m /\ forall c, In c l -> col c <= fold_left maxstep l m.
+Proof.
+  induction l as [|x l IH]; intros m; cbn [fold_left].
+  - split; [lia|]. intros c [].
+  - destruct (IH (if m <? col x then col x else m)) as [Ha Hb].
+    destruct (m <? col x) eqn:E; (split; [lia|]); intros c [<-|Hc]; try lia; apply Hb; assumption.
+Qed.
+
+Lemma last_default : forall (A : Type) (l : list A) x a b, last (x :: l) a = last (x :: l) b.
+Proof.
+  intros A l. induction l as [|y l IH]; intros x a b; [reflexivity|].
+  change (last (x :: y :: l) a) with (last (y :: l) a).
+  change (last (x :: y :: l) b) with (last (y :: l) b). apply IH.
+Qed.
+
+Lemma sorted_rows : forall (l : list (pos * T)) c0, sorted_by_row (c0 :: l) ->
+  (forall c, In c (c0 :: l) -> row c0 <= row c /\ row c <= row (last (c0 :: l) c0)) /\
+  fold_left (fun m c => N.min m (row c)) l (row c0) = row c0 /\
+  fold_left (fun m c => N.max m (row c)) l (row c0) = row (last (c0 :: l) c0).
+Proof.
+  induction l as [|c1 l IH]; intros c0 Hs.
+  - split; [|split; reflexivity]. intros c [<-|[]]. cbn [last]. lia.
+  - destruct Hs as [H01 Hs]. destruct (IH c1 Hs) as (Hb & Hmin & Hmax).
+    change (last (c0 :: c1 :: l) c0) with (last (c1 :: l) c0).
+    rewrite (last_default l c1 c0 c1).
+    assert (Hl : row c1 <= row (last (c1 :: l) c1)) by (apply Hb; left; reflexivity).
+    split; [|split].
+    + intros c [<-|Hc]; [lia|]. destruct (Hb c Hc). lia.
+    + cbn [fold_left]. rewrite N.min_l by assumption.
+      clear - Hb H01. revert Hb. generalize (row (last (c1 :: l) c1)). intros top Hb.
+      assert (Hall : forall c, In c l -> row c0 <= row c).
+      { intros c Hc. destruct (Hb c (or_intror Hc)). lia. }
+      clear Hb. induction l as [|x l IHl]; [reflexivity|]. cbn [fold_left].
+      rewrite N.min_l by (apply Hall; left; reflexivity). apply IHl.
+      intros c Hc. apply Hall. right. assumption.
+    + cbn [fold_left]. rewrite N.max_r by assumption. exact Hmax.
+Qed.
+
+(* the loop that stores the cells *)
+Lemma fs_fold : forall rs cmin cols len (cells : list (N * N * T)) (v : list T),
+  N.of_nat (length v) = len ->
+  (forall c, In c cells ->
+     rs <= row c /\ cmin <= col c /\ col c - cmin < cols /\
+     (row c - rs) * cols + (col c - cmin) < len) ->
+  exists v',
+    fold_left (fun (acc : outcome (list T)) c =>
+                 do v <- acc;
+                 do row <- sub32 (fst (fst c)) rs;
+                 do col <- sub32 (snd (fst c)) cmin;
+                 let idx := row * cols + col in
+                 if idx <? len then Ok (list_set v (N.to_nat idx) (snd c)) else Ok v)
+              cells (Ok v) = Ok v' /\
+    length v' = length v /\
+    forall q a, rs <= fst q -> cmin <= snd q -> snd q - cmin < cols ->
+      nth_error v (N.to_nat ((fst q - rs) * cols + (snd q - cmin))) = Some a ->
+      nth_error v' (N.to_nat ((fst q - rs) * cols + (snd q - cmin))) =
+        Some (fold_left (fun acc c => if pos_eqb (fst c) q then snd c else acc) cells a).
+Proof.
+  unfold pos.
+  intros rs cmin cols len cells v.
+  match goal with |- context [fold_left ?f cells _] => set (F := f) end.
+  revert v. induction cells as [|c cells IH]; intros v Hlen Hin.
+  - exists v. split; [reflexivity|]. split; [reflexivity|]. intros q a _ _ _ H. exact H.
+  - destruct (Hin c (or_introl eq_refl)) as (Hc1 & Hc2 & Hc3 & Hc4).
+    cbn [fold_left].
+    assert (HF : F (Ok v) c =
+                 Ok (list_set v (N.to_nat ((row c - rs) * cols + (col c - cmin))) (snd c))).
+    { unfold F. cbn [obind]. unfold sub32.
+      destruct (rs <=? row c) eqn:E1; [|lia]. cbn [obind].
+      destruct (cmin <=? col c) eqn:E2; [|lia]. cbn [obind].
+      destruct ((row c - rs) * cols + (col c - cmin) <? len) eqn:E3; [|lia]. reflexivity. }
+    rewrite HF.
+    destruct (IH (list_set v (N.to_nat ((row c - rs) * cols + (col c - cmin))) (snd c)))
+      as (v' & Hv' & Hlen' & Hnth').
+    { rewrite list_set_length. assumption. }
+    { intros c' Hc'. apply Hin. right. assumption. }
+    exists v'. split; [exact Hv'|]. split; [rewrite Hlen', list_set_length; reflexivity|].
+    intros q a Hq1 Hq2 Hq3 Ha. cbn [fold_left].
+    destruct (pos_eqb (fst c) q) eqn:Eq.
+    + apply pos_eqb_true in Eq. apply Hnth'; try assumption. rewrite <- Eq.
+      apply nth_error_list_set_eq. lia.
+    + apply Hnth'; try assumption. rewrite nth_error_list_set_neq; [assumption|].
+      intro Hc.
+      assert (Hc' : (row c - rs) * cols + (col c - cmin) = (fst q - rs) * cols + (snd q - cmin)) by lia.
+      apply flat_index_inj in Hc'; try lia.
+      assert (Heq : fst c = q) by (destruct c as [[cr cc] cv], q as [qr qc]; cbn [fst snd] in *; f_equal; lia).
+      apply pos_eqb_true in Heq. congruence.
+Qed.
+
+Lemma from_sparse_spec_sec : forall (cs : list (pos * T)),
+    pre empty (OFromSparse cs) ->
+    exists r, from_sparse d cs = Ok r /\ Wf r /\
+      rect r = tight_bbox (map fst cs) /\
+      forall q, get_value r q = if in_rect r q then Some (last_write d cs q) else None.
+Proof.
+  intros cs Hpre. cbn [pre] in Hpre. destruct Hpre as (Hsorted & Hbnd & Hbox).
+  destruct cs as [|c0 rest].
+  - exists empty. split; [reflexivity|]. split; [left; reflexivity|]. split; [reflexivity|].
+    intro q. rewrite get_value_empty by reflexivity. reflexivity.
+  - destruct (@sorted_rows rest c0 Hsorted) as (Hrows & Hminr & Hmaxr).
+    unfold from_sparse. cbv zeta. unfold pos in *.
+    set (cmin := fold_left _ (c0 :: rest) U32MAX).
+    set (cmax := fold_left _ (c0 :: rest) 0).
+    set (re := fst (fst (last (c0 :: rest) c0))) in *.
+    set (rs := fst (fst c0)) in *.
+    assert (Hc0 : snd (fst c0) <= U32MAX) by (apply Hbnd; left; reflexivity).
+    assert (Htb : tight_bbox (map fst (c0 :: rest)) = Some ((rs, cmin), (re, cmax))).
+    { cbn [map tight_bbox]. destruct c0 as [[r0 k0] v0]. cbn [fst snd] in *.
+      rewrite fold_bbox. unfold rs in Hminr, Hmaxr. rewrite Hminr, Hmaxr.
+      unfold cmin, cmax. cbn [fold_left fst snd].
+      destruct (k0 <? U32MAX) eqn:E1; destruct (0 <? k0) eqn:E2;
+        repeat f_equal; lia. }
+    rewrite Htb in *.
+    destruct Hbox as [Hbox1 Hbox2]. cbn [fst snd] in Hbox1, Hbox2.
+    assert (Hcols : forall c, In c (c0 :: rest) -> cmin <= snd (fst c) /\ snd (fst c) <= cmax).
+    { intros c Hc. split.
+      - unfold cmin. apply (fold_min_bounds (c0 :: rest) U32MAX). assumption.
+      - unfold cmax. apply (fold_max_bounds (c0 :: rest) 0). assumption. }
+    assert (Hcc : cmin <= cmax) by (destruct (Hcols c0 (or_introl eq_refl)); lia).
+    assert (Hrr : rs <= re) by (destruct (Hrows c0 (or_introl eq_refl)); lia).
+    clearbody cmin cmax. clear Hminr Hmaxr Hbnd Hc0 Hsorted.
+    unfold sub32 at 1. destruct (cmin <=? cmax) eqn:E1; [|lia]. cbn [obind].
+    unfold add32 at 1. destruct (cmax - cmin + 1 <=? U32MAX) eqn:E2; [|lia]. cbn [obind].
+    unfold sub32 at 1. destruct (rs <=? re) eqn:E3; [|lia]. cbn [obind].
+    unfold add32 at 1. destruct (re - rs + 1 <=? U32MAX) eqn:E4; [|lia]. cbn [obind].
+    destruct (@fs_fold rs cmin (cmax - cmin + 1) ((cmax - cmin + 1) * (re - rs + 1)) (c0 :: rest)
+                (repeat d (N.to_nat ((cmax - cmin + 1) * (re - rs + 1)))))
+      as (v' & Hv' & Hlen' & Hnth').
+    { rewrite repeat_length. apply N2Nat.id. }
+    { intros c Hc. destruct (Hcols c Hc) as [Hk1 Hk2]. destruct (Hrows c Hc) as [Hr1 Hr2].
+      clear - Hk1 Hk2 Hr1 Hr2. nia. }
+    match goal with
+    | |- context [obind ?X _] => replace X with (Ok v') by (symmetry; exact Hv')
+    end.
+    cbn [obind]. eexists; split; [reflexivity|].
+    assert (Hlen : N.of_nat (length v') = (re - rs + 1) * (cmax - cmin + 1)).
+    { rewrite Hlen', repeat_length, N2Nat.id. apply N.mul_comm. }
+    split; [apply Wf_mk; assumption|]. split; [apply rect_mk; assumption|].
+    intro q. unfold in_rect. rewrite (@rect_mk T rs cmin re cmax v' Hlen).
+    rewrite (@get_value_mk T rs cmin re cmax v' q Hrr Hcc Hlen).
+    destruct (in_box (rs, cmin) (re, cmax) q) eqn:Eb; [|reflexivity].
+    rewrite <- !N2Nat.inj_mul, <- !N2Nat.inj_add. unfold last_write.
+    assert (Hq : rs <= fst q /\ fst q <= re /\ cmin <= snd q /\ snd q <= cmax)
+      by (clear - Eb; unfold in_box in Eb; cbn [fst snd] in Eb; lia).
+    apply Hnth'; try (clear - Hq; lia).
+    apply nth_error_repeat. clear - Hq. nia.
+Qed.
+
+End FromSparse.
+
+Lemma from_sparse_spec :
+  forall (T : Type) (d : T) (cs : list (pos * T)),
+    pre empty (OFromSparse cs) ->
+    exists r, from_sparse d cs = Ok r /\ Wf r /\
+      rect r = tight_bbox (map fst cs) /\
+      forall q, get_value r q = if in_rect r q then Some (last_write d cs q) else None.
+Proof. intros T d. apply from_sparse_spec_sec. Qed.
+
+(* ---------------------------------------------------------------------------------------- *)
+(* Histories                                                                                *)
+(* ---------------------------------------------------------------------------------------- *)
+Lemma step_wf : forall (T : Type) (d : T) (r0 : range T) (o : op T),
+  Wf r0 -> pre r0 o -> exists r1, step d r0 o = Ok r1 /\ Wf r1.
+Proof.
+  intros T d r0 o HWf Hp. destruct o as [s e| |cs|p v|s e]; cbn [step].
+  - cbn [pre] in Hp. destruct Hp as [Hle Hb].
+    destruct (new_spec d Hle Hb) as (r1 & H1 & H2 & _). eauto.
+  - exists empty. split; [reflexivity|left; reflexivity].
+  - destruct (@from_sparse_spec T d cs Hp) as (r1 & H1 & H2 & _). eauto.
+  - destruct (@set_value_spec T d r0 p v HWf Hp) as (r1 & H1 & H2 & _). eauto.
+  - cbn [pre] in Hp. destruct Hp as [Hle Hb].
+    destruct (@window_spec T d r0 s e HWf Hle Hb) as (r1 & H1 & H2 & _). eauto.
+Qed.
+
+Lemma range_wf_history :
+  forall (T : Type) (d : T) (ops : list (op T)) (r0 : range T),
+    Wf r0 -> pre_all d r0 ops ->
+    exists r, run d r0 ops = Ok r /\ Wf r.
+Proof.
+  intros T d ops. induction ops as [|o ops IH]; intros r0 HWf Hpre.
+  - exists r0. split; [reflexivity|assumption].
+  - cbn [pre_all] in Hpre. destruct Hpre as [Hp Hrest].
+    destruct (step_wf d o HWf Hp) as (r1 & Hs & HWf1).
+    destruct (IH r1 HWf1 (Hrest r1 Hs)) as (r & Hr & HWfr).
+    exists r. split; [|assumption]. cbn [run]. rewrite Hs. cbn [obind]. exact Hr.
+Qed.
+
+(* ---------------------------------------------------------------------------------------- *)
+(* Non-vacuity of the hypotheses of the individual theorems                                 *)
+(* ---------------------------------------------------------------------------------------- *)
+Example new_pre_ex : le2 (1, 1) (2, 3) /\ box_cells (1, 1) (2, 3) <= U32MAX.
+Proof. vm_compute. intuition discriminate. Qed.
+
+Example set_value_pre_ex :
+  let r := mkRange (1, 1) (2, 3) [1; 2; 3; 4; 5; 6] in
+  Wf r /\ pre r (OSetValue (4, 5) 7) /\ pre r (OSetValue (2, 2) 8) /\ pre (@empty N) (OSetValue (3, 3) 1).
+Proof.
+  cbv zeta. split; [right; vm_compute; intuition discriminate|].
+  split; [right; vm_compute; intuition discriminate|].
+  split; [right; vm_compute; intuition discriminate|left; reflexivity].
+Qed.
+
+Example from_sparse_pre_ex : pre (@empty N) (OFromSparse [((2, 3), 5); ((2, 1), 4); ((4, 1), 6)]).
+Proof.
+  cbn [pre]. split; [vm_compute; intuition discriminate|].
+  split; [|vm_compute; intuition discriminate].
+  intros c [<-|[<-|[<-|[]]]]; vm_compute; intuition discriminate.
+Qed.
+
+Example window_pre_ex :
+  Wf (mkRange (1, 1) (2, 3) [1; 2; 3; 4; 5; 6]) /\ le2 (0, 2) (1, 4) /\ box_cells (0, 2) (1, 4) <= U32MAX.
+Proof. split; [right|]; vm_compute; intuition discriminate. Qed.
